@@ -10,5 +10,5 @@ CONSTANTS
   FreeHi = 13
   MaxEraChanges = 1
   Bug = "none"
-INVARIANTS WalkRule DiagnosisAgrees Bounds OrderIso DoyCounts YearTotals MonthTotals RebuildKeysInjective EraAffine
+INVARIANTS WalkRule StepExclusive DiagnosisAgrees Bounds OrderIso DoyCounts YearTotals MonthTotals RebuildKeysInjective EraAffine
 CHECK_DEADLOCK FALSE
